@@ -494,6 +494,31 @@ def run_check(prop, modname, jobs, tier, seed, level='model_checking', functions
     return code
 
 
+def cli_replay(prop, modname, replay, path):
+    """`./check Cxx --replay file`: a witness of a path that did not return is replayed under a CPU
+    limit in a forked pristine child (it may not terminate); everything else directly"""
+    v = json.load(open(path))
+    if v.get('label') == 'path-timeout':
+        from lib.common import PristineServer
+        srv = PristineServer()
+        try:
+            r = srv.call(modname, 'replay', json.loads(json.dumps(v, default=str)), cpu_s=60, mem_mb=4096, wall_s=1800)
+        finally:
+            srv.close()
+        if r['status'] == 'cpu':
+            ok, detail = True, 'the public API call on %s did not finish within 60 s CPU' % (
+                json.dumps(v['witness'].get('inputs'), default=str)[:300],)
+        elif r['status'] == 'ok' and r['result']:
+            ok, detail = bool(r['result'][0]), str(r['result'][1])
+        else:
+            print('replay could not be carried out: %s' % (str(r)[:300],))
+            return 2
+    else:
+        ok, detail = replay(v)
+    print(('VIOLATION property=%s replay=%s\n  ' % (prop, path) if ok else 'not reproduced: ') + detail)
+    return 1 if ok else 0
+
+
 def std_args(argv=None):
     ap = argparse.ArgumentParser()
     ap.add_argument('--tier', default=os.environ.get('VERIF_TIER', 'quick'),
